@@ -32,6 +32,13 @@ import HdVerif.Generated.T20ctor_pr_content
 import HdVerif.Generated.T20ctor_pr_sop
 import HdVerif.Generated.T20ctor_legacy_sop
 import HdVerif.Generated.T20ctor_volume
+import HdVerif.Generated.T20ctor_coding_schemes
+import HdVerif.Generated.T20ctor_color
+import HdVerif.Generated.T20ctor_image
+import HdVerif.Generated.T20ctor_io
+import HdVerif.Generated.T20ctor_spatial
+import HdVerif.Generated.T20ctor_sr_utils
+import HdVerif.Generated.T20ctor_uid
 /-! The alias-flow tables regenerated from /repo, collected (C20). -/
 namespace HdVerif.Aliasing
 open HdVerif.Gen
@@ -70,7 +77,14 @@ def allCtors : List Entry :=
   ctor_pr_content ++
   ctor_pr_sop ++
   ctor_legacy_sop ++
-  ctor_volume
+  ctor_volume ++
+  ctor_coding_schemes ++
+  ctor_color ++
+  ctor_image ++
+  ctor_io ++
+  ctor_spatial ++
+  ctor_sr_utils ++
+  ctor_uid
 
 /-- constructors the extractor could not abstract (none on the pinned tree) -/
 def allCtorSkipped : List String :=
@@ -93,7 +107,24 @@ def allCtorSkipped : List String :=
   ctorSkipped_pr_content ++
   ctorSkipped_pr_sop ++
   ctorSkipped_legacy_sop ++
-  ctorSkipped_volume
+  ctorSkipped_volume ++
+  ctorSkipped_coding_schemes ++
+  ctorSkipped_color ++
+  ctorSkipped_image ++
+  ctorSkipped_io ++
+  ctorSkipped_spatial ++
+  ctorSkipped_sr_utils ++
+  ctorSkipped_uid
+
+/-- constructors of the package that are deliberately not in the tables: internal machinery of `image.py` that builds no DICOM
+object from caller-owned objects (the pixel-transform planner, an SQL table description) and the file entry point, whose argument
+is a path or file handle -/
+def excludedConstructors : List String :=
+  ["_CombinedPixelTransform.__init__", "_SQLTableDefinition.__init__", "_Image.from_file"]
+
+/-- is the function `n` (as `Class.method`) in a table (possibly as the arms-merged variant) -/
+def tabled (tbl : List Entry) (n : String) : Bool :=
+  tbl.any fun e => e.name == n || e.name == n ++ " (arms merged)"
 
 /-- what the model predicts a caller can observe of one entry with the `copy` bit fixed (`none`: no such parameter),
 over all valuations of the other conditions: (may return the object passed in, may return a new object, may return a
